@@ -439,10 +439,11 @@ def run(tier, seed=0, replay=None, procs=None, only=None):
     cs = list(cases(tier))
     if only:
         cs = [c for c in cs if re.search(only, c.name)]
-    rv, notes = real_dataset_checks(tier)
+    def late():
+        rv, notes = real_dataset_checks(tier)
+        return rv, [], dict(real_dataset_notes=notes)
     return main_run(
-        PROP, tier, cs, functions=functions(), seed=seed, procs=procs, extra_violations=rv,
-        extra_evidence=dict(real_dataset_notes=notes),
+        PROP, tier, cs, functions=functions(), seed=seed, procs=procs, late_checks=late,
         bounds=dict(
             stream='1-2 geometry variables, names 1-2 bytes (edited: 0-2), dtype names 1-2 bytes, rank 0-2, dimensions 1-2, itemsize in '
                    '{1,2,4}, 0-1 attributes, marshalled attributes 1-2 bytes; every length enumerated by forking, every byte a z3 BitVec(8)',
